@@ -4,7 +4,7 @@
 # not touched.  The recorded evaluation (meta.json) is always made by seeded_eval.sh, which applies the patch to /repo itself.
 name=$1; props=$2; src=${3:-/verif/seeded/$name}
 root=$(mktemp -d /dev/shm/sq-XXXXXX)
-cp -r /repo/diskcache $root/diskcache
+git -C /repo archive HEAD diskcache | tar -x -C $root      # the committed tree, whatever the working tree holds right now
 patch -p1 -s -d $root -i $src/patch.diff || { echo "patch does not apply"; rm -rf $root; exit 3; }
 cd /verif
 for p in $props; do
